@@ -25,7 +25,7 @@ from __future__ import annotations
 import ast
 
 from ..repo import AnalysisError, own_nodes, dotted
-from .common import resolve_root
+from .common import key_lambda, resolve_root, source_pos
 
 MANIFEST = {
     "text": (
@@ -83,6 +83,8 @@ def run(ctx):
     solve = cls.methods.get("solve")
     if solve is None:
         raise AnalysisError("ORToolsSolver.solve vanished")
+    _find_roles(ctx, solve)
+    chk.analysed["solver_state_roles"] = dict(ROLE)
     eng = ctx.engine(relevant=_rel, max_depth=5, unroll=1)
     paths = eng.paths(solve, cls)
     chk.analysed["solve_paths"] = len(paths)
@@ -126,7 +128,7 @@ def run(ctx):
                 break
         if bad:
             break
-    need = {"model", "solver", "_operations_start", "_makespan"}
+    need = {"model", "solver", ROLE["table"], ROLE["makespan"]}
     if not bad:
         if not need <= used_attrs:
             raise AnalysisError(f"solver state attributes not all seen on solve paths: {sorted(used_attrs)}")
@@ -207,16 +209,44 @@ def _over_all_operations(ctx, F, node):
     )
 
 
+ROLE = {"table": "_operations_start", "makespan": "_makespan"}
+
+
+def _find_roles(ctx, solve):
+    """The attribute names playing the two roles, found by shape (so a rename
+    of the private attributes is not an analysis error):
+    table    - self.X[<operation>] = (<start var>, <end var>) / a record of both
+    makespan - self.Y = <model>.NewIntVar(...) handed to AddMaxEquality"""
+    F = ctx.norm.flat(solve, depth=3)
+    table = mk = None
+    for n in own_nodes(F.node):
+        if isinstance(n, ast.Assign) and len(n.targets) == 1:
+            t = n.targets[0]
+            if (
+                isinstance(t, ast.Subscript) and isinstance(t.value, ast.Attribute) and isinstance(t.value.value, ast.Name)
+                and t.value.value.id == "self" and isinstance(n.value, (ast.Tuple, ast.Call)) and table is None
+            ):
+                table = t.value.attr
+            if (
+                isinstance(t, ast.Attribute) and isinstance(t.value, ast.Name) and t.value.id == "self"
+                and isinstance(n.value, ast.Call) and isinstance(n.value.func, ast.Attribute) and canon(n.value.func.attr) == "NewIntVar"
+            ):
+                mk = t.attr
+    if table is None or mk is None:
+        raise AnalysisError(f"ORToolsSolver: variable table / objective variable attributes not recognised (table={table}, makespan={mk})")
+    ROLE["table"], ROLE["makespan"] = table, mk
+
+
 def _sym_var(ctx, F, e):
     """('start'|'end', key expression) for an expression denoting a CP variable
     taken from self._operations_start[key]."""
     x = ctx.norm.xexpr(F, e)
     if isinstance(x, ast.Subscript) and isinstance(x.slice, ast.Constant) and x.slice.value in (0, 1):
         base = x.value
-        if isinstance(base, ast.Subscript) and ast.unparse(base.value) == "self._operations_start":
+        if isinstance(base, ast.Subscript) and ast.unparse(base.value) == "self." + ROLE["table"]:
             return ("start" if x.slice.value == 0 else "end"), base.slice
     # named fields (NamedTuple / dataclass): .start / .end, .start_var / .end_var
-    if isinstance(x, ast.Attribute) and isinstance(x.value, ast.Subscript) and ast.unparse(x.value.value) == "self._operations_start":
+    if isinstance(x, ast.Attribute) and isinstance(x.value, ast.Subscript) and ast.unparse(x.value.value) == "self." + ROLE["table"]:
         a = x.attr.lower()
         if a.startswith("start"):
             return "start", x.value.slice
@@ -367,10 +397,10 @@ def _shapes(ctx, cls):
     a0 = ast.unparse(c.args[0]) if c.args else ""
     src = ctx.norm.xexpr(F, c.args[1]) if len(c.args) > 1 else None
     ok = False
-    if a0 == "self._makespan" and isinstance(src, (ast.ListComp, ast.GeneratorExp)) and len(src.generators) == 1:
+    if a0 == "self." + ROLE["makespan"] and isinstance(src, (ast.ListComp, ast.GeneratorExp)) and len(src.generators) == 1:
         g = src.generators[0]
         it = ast.unparse(g.iter)
-        if it in ("self._operations_start.values()",) and not g.ifs:
+        if it in (f"self.{ROLE['table']}.values()",) and not g.ifs:
             tgt = g.target
             if isinstance(tgt, ast.Tuple) and len(tgt.elts) == 2 and isinstance(src.elt, ast.Name) and ast.unparse(tgt.elts[1]) == src.elt.id:
                 ok = True
@@ -378,7 +408,7 @@ def _shapes(ctx, cls):
                 ok = True
             elif isinstance(src.elt, ast.Attribute) and isinstance(tgt, ast.Name) and ast.unparse(src.elt.value) == tgt.id and src.elt.attr.lower().startswith("end"):
                 ok = True
-        elif it == "self._operations_start.items()" and not g.ifs:
+        elif it == f"self.{ROLE['table']}.items()" and not g.ifs:
             e = ast.unparse(src.elt)
             if e.endswith("[1]") or (isinstance(g.target, ast.Tuple) and isinstance(g.target.elts[1], ast.Tuple) and ast.unparse(g.target.elts[1].elts[1]) == e):
                 ok = True
@@ -392,10 +422,10 @@ def _shapes(ctx, cls):
             loc=F.loc(c),
         )
     c, _ = found["minim"][0]
-    if c.args and ast.unparse(c.args[0]) == "self._makespan":
+    if c.args and ast.unparse(c.args[0]) == "self." + ROLE["makespan"]:
         chk.ok("R03.b", solve.qualname, F.loc(c), "Minimize(makespan)")
     else:
-        chk.violation("R03.b", F, c, f"the objective is `{ast.unparse(c)}`, not Minimize(self._makespan)", loc=F.loc(c))
+        chk.violation("R03.b", F, c, f"the objective is `{ast.unparse(c)}`, not Minimize(self.{ROLE['makespan']})", loc=F.loc(c))
     if any(isinstance(n, ast.Call) and isinstance(n.func, ast.Attribute) and n.func.attr in ("Maximize", "maximize") for n in own_nodes(F.node)):
         chk.violation("R03.b", F, c, "the model maximises an objective")
 
@@ -567,22 +597,20 @@ def _status(ctx, cls, solve_raw):
     else:
         chk.violation("R03.c", solve_raw, st, f"status text `{ast.unparse(st)}` does not depend on the solver status", loc=solve.loc(st))
     mk = kv.get("makespan")
-    if mk is not None and isinstance(mk, ast.Call) and canon(getattr(mk.func, "attr", "")) == "Value" and mk.args and ast.unparse(mk.args[0]) == "self._makespan":
+    if mk is not None and isinstance(mk, ast.Call) and canon(getattr(mk.func, "attr", "")) == "Value" and mk.args and ast.unparse(mk.args[0]) == "self." + ROLE["makespan"]:
         chk.ok("R03.c", solve_raw.qualname, solve.loc(mk), "reported makespan = solver.Value(objective variable)")
     else:
         chk.violation("R03.c", solve_raw, mk, f"the reported makespan is `{ast.unparse(mk) if mk is not None else 'missing'}`, not the solver's value of the objective variable")
-    # the metadata must reach the Schedule
-    cs = cls.methods.get("_create_schedule")
-    if cs is None:
-        raise AnalysisError("_create_schedule vanished")
 
 
 def _rebuild(ctx, cls):
     chk = ctx.chk
-    cs = cls.methods.get("_create_schedule")
-    if cs is None:
-        raise AnalysisError("_create_schedule vanished")
-    cs = ctx.norm.flat(cs)
+    # the rebuild is judged on the flattened solve (private steps such as
+    # _create_schedule inlined), so it does not depend on how solve is split
+    solve = cls.methods.get("solve")
+    if solve is None:
+        raise AnalysisError("ORToolsSolver.solve vanished")
+    cs = ctx.norm.flat(solve, depth=3)
     sorts = [
         n for n in own_nodes(cs.node)
         if isinstance(n, ast.Call) and ((isinstance(n.func, ast.Name) and n.func.id == "sorted") or (isinstance(n.func, ast.Attribute) and n.func.attr == "sort"))
@@ -594,22 +622,11 @@ def _rebuild(ctx, cls):
         if any(k.arg == "reverse" and not (isinstance(k.value, ast.Constant) and k.value.value is False) for k in s.keywords):
             chk.violation("R03.d", cs, s, "machine sequences are sorted in reverse", loc=cs.loc(s))
             continue
-        if isinstance(key, (ast.Name, ast.Attribute)):
-            ts, _ = ctx.res.callees(cs, ast.Call(func=key, args=[], keywords=[]), cs.cls) if False else ([], None)
-            q = ctx.repo.resolve(cs.module.name, ast.unparse(key))
-            kf = ctx.repo.functions.get(q or "")
-            if kf is None and isinstance(key, ast.Attribute) and cs.cls is not None:
-                kf = ctx.repo.method(cs.cls, key.attr)
-            rets = [r for r in own_nodes(kf.node) if isinstance(r, ast.Return)] if kf is not None else []
-            if kf is None or len(rets) != 1 or not kf.params:
-                raise AnalysisError("_create_schedule: sort key function not recognised")
-            p = kf.params[-1]
-            b = rets[0].value
-        elif isinstance(key, ast.Lambda):
-            p = key.args.args[0].arg
-            b = key.body
-        else:
-            raise AnalysisError("_create_schedule: sort key not recognised")
+        lam = key_lambda(cs, key, cls, ctx.repo)
+        if lam is None:
+            raise AnalysisError(f"{cs.loc(s)}: sort key `{ast.unparse(key) if key is not None else 'natural order'}` not recognised")
+        p = lam.args.args[0].arg
+        b = lam.body
         if isinstance(b, ast.Tuple) and len(b.elts) >= 2:
             e0, e1 = ast.unparse(b.elts[0]), ast.unparse(b.elts[1])
             if e0 == f"{p}.start_time" and (e1 == f"{p}.end_time" or e1.endswith(".duration")):
@@ -636,19 +653,20 @@ def _rebuild(ctx, cls):
     n_sop = 0
     okp = True
     defs = ctx.flow.defs(cs)
-    # loop / comprehension bindings: name -> iterable it is drawn from
+    # Only what happens after Solve() belongs to the rebuild: in the flattened
+    # solve the model-building loops reuse the same variable names.
+    pos = source_pos(cs.node)
+    solve_calls = [n for n in own_nodes(cs.node) if isinstance(n, ast.Call) and isinstance(n.func, ast.Attribute) and canon(n.func.attr) == "Solve"]
+    after = pos(solve_calls[0]) if solve_calls else -1
+    # loop / comprehension bindings (after Solve): name -> iterables it is drawn from
     drawn: dict[str, list] = {}
     for n in ast.walk(cs.node):
+        if pos(n) < after:
+            continue
         if isinstance(n, (ast.For, ast.comprehension)):
             for x in ast.walk(n.target):
                 if isinstance(x, ast.Name):
                     drawn.setdefault(x.id, []).append(n.iter)
-        if isinstance(n, ast.DictComp):
-            # the comprehension's value feeds whatever iterates the dict later
-            for g in n.generators:
-                for x in ast.walk(g.target):
-                    if isinstance(x, ast.Name):
-                        drawn.setdefault(x.id, []).append(g.iter)
 
     def closure(e):
         seen, work, out = set(), [e], []
@@ -659,7 +677,9 @@ def _rebuild(ctx, cls):
                 if isinstance(x, ast.Name) and x.id not in seen:
                     seen.add(x.id)
                     for d in defs.of(x.id):
-                        if d[0] == "value" and d[1] is not None:
+                        # d = (kind, value, statement); unpacked components are synthetic nodes
+                        at = pos(d[2]) if len(d) > 2 and d[2] is not None else pos(d[1]) if d[1] is not None else -1
+                        if d[0] == "value" and d[1] is not None and at >= after:
                             work.append(d[1])
                     work.extend(drawn.get(x.id, []))
         return out
@@ -690,13 +710,13 @@ def _rebuild(ctx, cls):
             continue
         cl = closure(st)
         txt = " ".join(ast.unparse(x) for x in cl)
-        if "_operations_start" not in txt or "Value(" not in txt:
+        if ROLE["table"] not in txt or "Value(" not in txt:
             okp = False
             chk.violation("R03.d", cs, c, f"the start time `{ast.unparse(st)}` of the rebuilt operation is not the solver's value of that operation's start variable", loc=cs.loc(c))
             continue
         wrong = [
             x for e in cl for x in ast.walk(e)
-            if isinstance(x, ast.Subscript) and ast.unparse(x.value).endswith("_operations_start") and ctx.norm.xtext(cs, x.slice) != ot
+            if isinstance(x, ast.Subscript) and ast.unparse(x.value).endswith("." + ROLE["table"]) and ctx.norm.xtext(cs, x.slice) != ot
         ]
         if wrong:
             okp = False
